@@ -60,11 +60,11 @@ def plan(tier):
     mods, skipped, reduced = [], [], []
     k = [0]
 
-    def add(pl, owner, attr):
+    def add(pl, owner, attr, extra=None):
         # two methods (static + self); where that collides (a literal shared by both), the same placement with one method
         for meths in (U.METHODS, ("im",)):
             k[0] += 1
-            m = {"k": k[0], "placement": tuple(pl), "owner": owner, "attr": tuple(attr), "methods": tuple(meths)}
+            m = {"k": k[0], "placement": tuple(pl), "owner": owner, "attr": tuple(attr), "methods": tuple(meths), "extra": extra}
             if not U.collides(m):
                 mods.append(m)
                 return
@@ -76,6 +76,11 @@ def plan(tier):
         for pl in placements:
             add(pl, "opaque", NONE)
             add(pl, "openum", NONE)
+            # a second type after the first impl block / a bridge module nested in this one (a module-level literal would name
+            # every function of the module alike, so those placements are left to the single-type modules)
+            if pl[0] != "L":
+                add(pl, "opaque", NONE, "sibling")
+                add(pl, "opaque", NONE, "nested")
         for pl in (("-", "-", "-", "-"), ("P", "P", "P", "P")):
             for a in attrs[1:]:
                 add(pl, "opaque", a)
@@ -86,6 +91,10 @@ def plan(tier):
             for pl in placements:
                 for a in attrs:
                     add(pl, owner, a)
+                    if owner == "opaque" and pl[0] != "L":
+                        add(pl, owner, a, "sibling")
+                if owner == "opaque" and pl[0] != "L":
+                    add(pl, owner, NONE, "nested")
         bound = {"abi_rename_placements": len(placements), "owners": list(U.OWNERS), "attr_variants": len(attrs),
                  "product": "placements x owners x attr variants (full)"}
     bound["methods_per_type"] = "sm (static) + im (self); im only where a literal shared by both methods would collide (%d modules)" % len(reduced)
@@ -95,7 +104,8 @@ def plan(tier):
 
 
 def desc(m):
-    return "m%d[%s|%s|%s|%s]" % (m["k"], U.placement_text(m["placement"]), m["owner"], U.attr_text(m["attr"]), "+".join(m["methods"]))
+    return "m%d[%s|%s|%s|%s%s]" % (m["k"], U.placement_text(m["placement"]), m["owner"], U.attr_text(m["attr"]), "+".join(m["methods"]),
+                                   ("|+" + m["extra"]) if m.get("extra") else "")
 
 
 # ------------------------------------------------------------------------------------------------
@@ -419,7 +429,7 @@ def fail_key(fl, attr_in_key):
     m = fl["m"]
     if m is None:
         return "C06|%s|%s|%s" % (fl["backend"], fl["kind"], fl["role"])
-    key = "C06|%s|%s|placement=%s|owner=%s|%s" % (fl["backend"], fl["kind"], U.placement_text(m["placement"]), m["owner"], fl["role"])
+    key = "C06|%s|%s|placement=%s|owner=%s%s|%s" % (fl["backend"], fl["kind"], U.placement_text(m["placement"]), m["owner"], ("+" + m["extra"]) if m.get("extra") else "", fl["role"])
     if attr_in_key:
         key += "|attr=%s" % U.attr_text(m["attr"])
     return key
